@@ -11,7 +11,6 @@ import (
 	"math/rand"
 	"net/http"
 	"reflect"
-	"regexp"
 	"strings"
 	"time"
 
@@ -59,12 +58,11 @@ func (r mRands) term() string {
 
 // ---------- certificates in metadata ----------
 
-var wsRe = regexp.MustCompile(`\s+`)
-
-// certClass is the harness's own reading of a certificate string (whitespace
-// strip, base64, DER, RSA key?) — the external function [cp] of the model.
-func certClass(s string) string {
-	der, err := base64.StdEncoding.DecodeString(wsRe.ReplaceAllString(s, ""))
+// certClass is the harness's own reading of a certificate string from which
+// all white space has already been removed (base64, DER, RSA key?) — the
+// external function [cp] of the model.
+func certClass(stripped string) string {
+	der, err := base64.StdEncoding.DecodeString(stripped)
 	if err != nil {
 		return "CertBad"
 	}
@@ -84,15 +82,17 @@ func certClass(s string) string {
 	return "CertRsaKey 9"
 }
 
+// certTable: one entry per distinct white-space-free certificate text in the metadata
 func certTable(md *mMeta) string {
 	seen := map[string]bool{}
 	var items []string
 	for _, d := range md.Descs {
 		for _, k := range d.KDs {
 			for _, c := range k.Certs {
-				if !seen[c] {
-					seen[c] = true
-					items = append(items, fmt.Sprintf("(%s, %s)", emit.Str(certAlias(c)), certClass(c)))
+				key := stripWS(c)
+				if !seen[key] {
+					seen[key] = true
+					items = append(items, fmt.Sprintf("(%s, %s)", emit.Str(key), certClass(key)))
 				}
 			}
 		}
@@ -124,7 +124,9 @@ func genSession(r *rand.Rand) mSession {
 	w := func() string { return word(r) }
 	s := mSession{
 		Create: time.Date(2015, 12, 1, 1, 0, 0, 0, time.UTC).Add(time.Duration(r.Intn(3600000)) * time.Millisecond),
-		Index:  maybe(r, 4, func() string { return pick(r, []string{fmt.Sprintf("idx-%x", r.Uint32()), fmt.Sprintf("idx-%x", r.Uint32()), "i\rx", "i\tx", "i\nx", " i "}) }),
+		Index: maybe(r, 4, func() string {
+			return pick(r, []string{fmt.Sprintf("idx-%x", r.Uint32()), fmt.Sprintf("idx-%x", r.Uint32()), "i\rx", "i\tx", "i\nx", " i "})
+		}),
 		NameID: maybe(r, 8, w), SubjectID: maybe(r, 2, w),
 		UserName: maybe(r, 3, w), Email: maybe(r, 3, w), CommonName: maybe(r, 3, w), Surname: maybe(r, 3, w),
 		GivenName: maybe(r, 3, w), ScopedAff: maybe(r, 2, w), EPPN: maybe(r, 2, w),
